@@ -22,7 +22,8 @@ def run(tier, seed):
     devs = [1, 1, 1, 1, 2, 3]
     jobs = [([], devs[w]) for w in range(W)]
     for i in range(ncase):
-        g = rng.choice(["1", "1", "1/2", "3/4", "9/10"])
+        # 131071/131072 = 1 - 2^-17: a discount factor that an approximate comparison with 1 would treat as undiscounted
+        g = rng.choice(["1", "1", "1/2", "3/4", "9/10"]) if i % 6 != 1 else "131071/131072"
         period = rng.randint(2, 7) if g == "1" else rng.randint(1, 7)
         kind = rng.choice(["periodic", "unichain", "unichain", "random"])
         S = rng.randint(max(2, period if kind == "periodic" else 2), 10 if tier == "quick" else 20)
@@ -39,7 +40,10 @@ def run(tier, seed):
         new = {"op": "new", "solver": "periodic", "id": f"p{i}", "maxbs": rng.choice(gen.layouts_for(S)), "gamma": g, "period": period,
                "eps": rng.choice(["1/2", "1/16", "1/1024", "4"]), "clear": rng.randint(0, 1), "sid": f"s{i}", "n_hint": S}
         ks = rng.choice([[5 * (period + 1) + 3], [period, 1, 2 * period + 3, 40], [1, 1, 1, period + 1], [200]])
-        if g != "1":
+        if g == "131071/131072":
+            new["eps"] = "1/1048576"                   # many logged decimals; the undiscounted and the documented measure differ by about n(1-gamma) relative
+            ks = [period, 1, 1, 2, 30]                 # measures compared while they are still large (right after the first full period)
+        elif g != "1":
             # the discounted measure divides by gamma^(iteration-1): float rounding is amplified by gamma^-(n-1); keep such runs short enough
             # for the decision to be determined by exact arithmetic (the amplified float noise stays far below every eps used)
             ks = rng.choice([[min(5 * (period + 1) + 3, 22)], [period, 1, min(2 * period + 3, 12)], [1, 1, 1, period + 1]])
